@@ -1140,6 +1140,11 @@ func (kcp *KCP) NoDelay(nodelay, interval, resend, nc int) int {
 		} else {
 			kcp.rx_minrto = IKCP_RTO_MIN
 		}
+		// the timeout in force respects the new minimum at once, not only after
+		// the next round-trip sample
+		if kcp.rx_rto < kcp.rx_minrto {
+			kcp.rx_rto = kcp.rx_minrto
+		}
 	}
 	if interval >= 0 {
 		if interval > 5000 {
